@@ -2,6 +2,7 @@ import WhVerif.Util.Proto
 import WhVerif.Model.C08
 import WhVerif.Model.C08Conv
 import WhVerif.Model.C08Impl
+import WhVerif.Model.C08Glue
 import WhVerif.Spec.C08
 namespace WhVerif.Driver.C08
 open Lean WhVerif.Proto WhVerif.C08
@@ -228,6 +229,14 @@ def handle (op : String) (j : Json) : Option Json :=
       let t := Impl.transTable (recombProb q) nTr
       some (Json.mkObj [("trans", Json.arr (t.map fbits))])
     | _, _ => some badInput
+  else if op == "c08.glue" then
+    -- run_genotype's prior subsetting: record positions, one opaque prior (list of naturals) per record, accessible positions
+    match getNatList? j "positions", (getList? j "priors").bind (fun l => l.mapM natList?), getNatList? j "acc" with
+    | some pos, some pri, some acc =>
+      match Glue.priorColumns pos pri acc with
+      | some cols => some (Json.mkObj [("cols", ofList (fun c => ofList ofNat c) cols)])
+      | none => some (Json.mkObj [("error", Json.str "KeyError")])
+    | _, _, _ => some badInput
   else if op == "c08.call" then
     match (getObj? j "gl").bind floatList?, (getObj? j "thr").bind ofBits? with
     | some [l0, l1, l2], some thr =>
